@@ -104,11 +104,27 @@ ReflectTags(tree, opts, ss) ==
 OrderedElem(e, fs, opts) ==
   LET ex == ExpectedFields(e, opts)
   IN [i \in 1..Len(fs) |-> Bound(fs[i])] = [i \in 1..Len(ex) |-> ex[i].bound]
+IsDigits(s) == s # <<>> /\ \A i \in 1..Len(s) : IsAsciiDigit(s[i])
+SuffixShape(s) == s = <<>> \/ IsDigits(s) \/ (s[1] = "_" /\ IsDigits(Tail(s)))
+
+\* the name is  Pascal(e_{k-j}) .. Pascal(e_k) suffix  for some j
+QualifiedOk(name, path) ==
+  \E j \in 0..(Len(path) - 1) :
+     LET q == Concat([i \in 1..(j + 1) |-> ToPascal(path[Len(path) - j - 1 + i])])
+     IN StartsWith(name, q) /\ SuffixShape(SubSeq(name, Len(q) + 1, Len(name)))
+
+\* struct definitions follow the pre-order walk: the k-th struct is named after the k-th element of that walk
+\* (a struct that only fits another position of the walk is out of order)
 OrderTags(tree, opts, ss) ==
   LET es == StructElems(tree, opts)
+      ps == StructPaths(tree, <<>>, opts)
   IN IF Len(es) # Len(ss) THEN {"STRUCT_COUNT"}
-     ELSE IF \E k \in 1..Len(ss) : ~PosTies(es[k]) /\ ~OrderedElem(es[k], ss[k].fields, opts)
-          THEN {"FIELD_ORDER"} ELSE {}
+     ELSE (IF \E k \in 1..Len(ss) : ~PosTies(es[k]) /\ ~OrderedElem(es[k], ss[k].fields, opts)
+           THEN {"FIELD_ORDER"} ELSE {})
+          \cup (IF \E k \in 1..Len(ss) : /\ \A q \in 1..Len(es) : ~PosTies(es[q])
+                                         /\ ~QualifiedOk(ss[k].name, ps[k])
+                                         /\ \E j \in 1..Len(ps) : QualifiedOk(ss[k].name, ps[j])
+                THEN {"STRUCT_ORDER"} ELSE {})
 
 \* C10: derive verbatim on every struct / absent when empty; rename exactly when the bound name differs
 OptionTags(tree, opts, ss) ==
@@ -124,25 +140,22 @@ Skeleton(ss) ==
                          fields |-> [i \in 1..Len(ss[k].fields) |->
                                        [ident |-> ss[k].fields[i].ident, opt |-> ss[k].fields[i].opt,
                                         vec |-> ss[k].fields[i].vec, base |-> ss[k].fields[i].base]]]]
-\* with a different sort option the same structs and fields appear, only in another order
+\* with a different sort option the same structs and fields appear, only in another order: every field keeps its
+\* binding, identifier and type (the binding is part of a field's identity here: which XML name got which identifier)
+BoundSkeleton(ss) ==
+  [k \in 1..Len(ss) |-> [name |-> ss[k].name,
+                         fields |-> [i \in 1..Len(ss[k].fields) |->
+                                       [bound |-> Bound(ss[k].fields[i]), ident |-> ss[k].fields[i].ident, opt |-> ss[k].fields[i].opt,
+                                        vec |-> ss[k].fields[i].vec, base |-> ss[k].fields[i].base]]]]
 SameModuloSort(s1, s2) ==
-  LET sk1 == Skeleton(s1)
-      sk2 == Skeleton(s2)
+  LET sk1 == BoundSkeleton(s1)
+      sk2 == BoundSkeleton(s2)
   IN /\ Len(sk1) = Len(sk2)
      /\ \A k \in 1..Len(sk1) :
            \E j \in 1..Len(sk2) : sk2[j].name = sk1[k].name /\ SameBag(sk1[k].fields, sk2[j].fields)
 
 -----------------------------------------------------------------------------
 (* C14                                                                     *)
-
-IsDigits(s) == s # <<>> /\ \A i \in 1..Len(s) : IsAsciiDigit(s[i])
-SuffixShape(s) == s = <<>> \/ IsDigits(s) \/ (s[1] = "_" /\ IsDigits(Tail(s)))
-
-\* the name is  Pascal(e_{k-j}) .. Pascal(e_k) suffix  for some j
-QualifiedOk(name, path) ==
-  \E j \in 0..(Len(path) - 1) :
-     LET q == Concat([i \in 1..(j + 1) |-> ToPascal(path[Len(path) - j - 1 + i])])
-     IN StartsWith(name, q) /\ SuffixShape(SubSeq(name, Len(q) + 1, Len(name)))
 
 NameTags(tree, opts, ss) ==
   LET ps == StructPaths(tree, <<>>, opts)
